@@ -120,6 +120,11 @@ fn gen() -> Vec<Case> {
             }
         }
     }
+    for w in ["-ok", "-okdir", "-owner", "-old", "-orx", "-all", "-andx", "-a1", "-o1", "-nothing", "-notx"] {
+        out.push(Case { input: format!("-true {w}"), kw: None, word: w.to_string(), family: "unknown-word" });
+        out.push(Case { input: format!("{w} rm"), kw: None, word: w.to_string(), family: "unknown-word" });
+        out.push(Case { input: format!("-name a -o {w} -print"), kw: None, word: w.to_string(), family: "unknown-word" });
+    }
     for w in ["foo", "-foo", "-bogus"] {
         out.push(Case { input: format!("( -true -o {w})"), kw: None, word: w.to_string(), family: "unknown-word" });
         out.push(Case { input: format!("({w})"), kw: None, word: w.to_string(), family: "unknown-word" });
